@@ -22,8 +22,8 @@ MANIFEST = dict(
         design="5/C08")
 
 CFG = {
-    "quick":    dict(mc="MC_ParseMon.cfg", gen="Gen_ConfText.cfg", nbase=250, nmut=6, nrand=150),
-    "thorough": dict(mc="MC_ParseMon_t.cfg", gen="Gen_ConfText_t.cfg", nbase=2500, nmut=10, nrand=3000),
+    "quick":    dict(mc="MC_ParseMon.cfg", gen="Gen_ConfText.cfg", scan="Gen_ConfScan.cfg", nbase=250, nmut=6, nrand=150),
+    "thorough": dict(mc="MC_ParseMon_t.cfg", gen="Gen_ConfText_t.cfg", scan="Gen_ConfScan_t.cfg", nbase=2500, nmut=10, nrand=3000),
 }
 
 FORMATS = [[0]] + [list(x) for x in (b"{*} =;!# `", b"[*] = ", b"[*] = !", b"{*} =;!#", b"[ ] = #", b"%x% = ", b"<x> = ",
@@ -135,6 +135,9 @@ def to_steps(ck, inputs):
         if rng.random() < 0.3:
             a1["refuse"] = rng.randrange(0, 6)
         a2 = dict(arg, pre=rng.choice([0, 0, 1, 2, 3, 4, 4]))
+        if text and rng.random() < 0.1:          # the source reports a read error (-1) after some bytes
+            a1["fail"] = rng.randrange(len(text))
+            a2["fail"] = rng.randrange(len(text))
         if origin == "bomb:parse":       # deep nesting: mpt_parse_node only
             behs.append([{"a": "parse", "arg": a2, "origin": origin}])
         else:
@@ -165,7 +168,9 @@ def run_and_validate(ck, exe, behs, tag):
             events.append({"a": st["a"], "arg": {"b": b, "i": i}, "obs": r["obs"], "_b": b, "_i": i, "_dbg": r.get("dbg")})
     keys = ("ret", "ev", "fbefore", "ftree", "reads", "len", "net", "netclear")
     slim = [{"a": e["a"], "arg": e["arg"], "obs": {k: v for k, v in e["obs"].items() if k in keys}} for e in events]
-    ok, matched, res = vlib.validate_trace("Trace_ParseMon", slim, cfg="Trace_ParseMon.cfg", tag=tag, xss="1g")
+    vlib.log("trace validation of %d runs ..." % len(slim))
+    ok, matched, res = vlib.validate_trace("Trace_ParseMon", slim, cfg="Trace_ParseMon.cfg", tag=tag, xss="1g", timeout=900)
+    vlib.log("trace validation done in %.1fs" % res.wall)
     rejects = [(int(l), int(r), why) for l, r, why in re.findall(r'<<"REJECT", (\d+), (\d+), "([^"]*)">>', res.out)]
     if matched != len(slim):
         raise vlib.MachineryError("trace validation stopped at %d of %d runs:\n%s" % (matched, len(slim), res.out[-2000:]))
@@ -198,6 +203,10 @@ def strip(beh):
     return [{"a": s["a"], "arg": s["arg"], "origin": s.get("origin")} for s in beh]
 
 
+def bare(beh):
+    return [{"a": s["a"], "arg": s["arg"]} for s in beh]
+
+
 def trim(o):
     o = dict(o)
     for k in ("tree", "fbefore", "ftree", "ev"):
@@ -226,21 +235,41 @@ def run(tier):
     exe = vlib.build_driver("conftext", ["conftext.c"])
 
     import time
+    import concurrent.futures
     tm = {}
     t0 = time.time()
+    # the three TLC jobs are independent: the monitor itself, the documents of ConfText, the hostile option data
+    with concurrent.futures.ThreadPoolExecutor(max_workers=3) as ex:
+        f1 = ex.submit(c09.tlc_retry, "MC_ParseMon", cfg["mc"], 240, workers=4)
+        f2 = ex.submit(c09.tlc_retry, "Gen_ConfText", cfg["gen"], c09.TMO[tier], workers=4, env={"SKIP_SCAN": "1"})
+        f3 = ex.submit(c09.tlc_retry, "Gen_ConfScan", cfg["scan"], c09.TMO[tier], workers=2, env={"SKIP_SCAN": "1"})
+        res, gen, scan = f1.result(), f2.result(), f3.result()
+    tm["tlc_jobs"] = round(time.time() - t0, 1); t0 = time.time()
     # 1. the monitor itself
-    res = vlib.tlc("MC_ParseMon", cfg["mc"], workers=4)
-    tm["mc"] = round(time.time() - t0, 1); t0 = time.time()
     ck.add_tlc(res, "exhaustive " + cfg["mc"])
 
     # 2. inputs: documents rendered by ConfText (TLC) + seeded mutations
-    gen = vlib.tlc("Gen_ConfText", cfg["gen"], workers=4, env={"SKIP_SCAN": "1"})
     if gen.error or gen.violation:
         raise vlib.MachineryError("case export failed: %s %s" % (gen.error, gen.violation))
     cases = [b[0] for b in vlib.parse_behaviours(gen.out)]
-    tm["gen"] = round(time.time() - t0, 1); t0 = time.time()
     inputs = make_inputs(ck, cases, cfg)
     behs = to_steps(ck, inputs)
+
+    # 2b. every byte string over a hostile alphabet as option data (Gen_ConfScan): these runs join the
+    #     monitored ones; what the scanner model (Tier 2) predicts for them is compared for the record only
+    #     (texts outside the rendered language are not covered by the statement: no verdict)
+    if scan.error or scan.violation:
+        raise vlib.MachineryError("scanner case export failed: %s %s" % (scan.error, scan.violation))
+    scases, dup = [], set()
+    for b in vlib.parse_behaviours(scan.out):      # strings with the same consumed prefix give the same case
+        key = json.dumps(b[0]["arg"], sort_keys=True)
+        if key not in dup:
+            dup.add(key)
+            scases.append(b[0])
+    nscan0 = len(behs)
+    behs += [[{"a": "events", "arg": st["arg"], "origin": "scan", "exp": st["exp"]}] for st in scases]
+    ck.cov["transitions"] += gen.generated + scan.generated
+    tm["inputs"] = round(time.time() - t0, 1); t0 = time.time()
 
     # 2a. binding A: for the generated documents the specification knows the exact event sequence
     #     (section start / option / section end with element paths and values); a successful
@@ -273,6 +302,24 @@ def run(tier):
         sub = [behs[b] for b in idx]
         ev2, f2, r2, _ = run_and_validate(ck, exe, sub, "Trace_ParseMon_re")
         report(ck, sub, ev2, f2, r2, "B(trace validation)")
+    # scanner model against the code (diagnostic)
+    agree = disagree = 0
+    dis = []
+    for e in events:
+        st = behs[e["_b"]][e["_i"]]
+        if st.get("origin") != "scan":
+            continue
+        exp, o = st["exp"], e["obs"]
+        got = [{"e": x["e"], "p": x["p"], "v": x["v"]} for x in o.get("ev", [])]
+        same = exp["ret"] == o.get("ret") and (exp["ev"] == "any" or exp["ev"] == got)
+        agree += same
+        disagree += not same
+        if not same and len(dis) < 5:
+            dis.append({"fmt": c09.unruns(st["arg"]["fmt"]), "text": c09.unruns(st["arg"]["text"]), "model": exp,
+                        "code": {"ret": o.get("ret"), "ev": got}})
+    ck.notes["scanner_model"] = {"cases": agree + disagree, "agree": agree, "disagree": disagree, "samples": dis}
+    if disagree:
+        vlib.log("note: the DataScan model and mpt_parse_data disagree on %d of %d hostile strings (no verdict)" % (disagree, agree + disagree))
     nruns = len(events)
     kinds = {}
     nt = set()
